@@ -399,7 +399,7 @@ fn c02_gen(seed: u64, run: u64, thorough: bool) -> Plan {
         // bytes in a resend mode, submitted in one instant: data frames closed by the limit of
         // 127 datagrams, with the next fragment opening a new frame, under loss
         if run >= 3000 {
-            w.tiny_mode = if run % 2 == 0 { MODE_RELIABLE } else { MODE_PERSISTENT };
+            w.tiny_mode = if (run / 2) % 2 == 0 { MODE_RELIABLE } else { MODE_PERSISTENT };
         }
     });
     if run >= 3000 {
@@ -407,12 +407,32 @@ fn c02_gen(seed: u64, run: u64, thorough: bool) -> Plan {
         // frame), then the burst, then a few more packets
         let mut rb = Rng::keyed(&[seed, run, 0xc02b]);
         let short_ch = plan.param("short_ch", 0.0) as u8;
-        let tiny_mode = if run % 2 == 0 { MODE_RELIABLE } else { MODE_PERSISTENT };
+        let tiny_mode = if (run / 2) % 2 == 0 { MODE_RELIABLE } else { MODE_PERSISTENT };
         let mut tag = 800_000u32;
-        let t_burst = rb.range(300_000, fault_until.max(300_001));
-        for _ in 0..rb.range(1, 12) {
-            let t = rb.below(t_burst);
-            plan.push(t, 0x4000_0000 + tag, Op::Send { ep: 0, to: None, ch: short_ch, mode: *rb.pick(&[MODE_RELIABLE, MODE_PERSISTENT]), len: rb.range(12, 1400) as u32, tag });
+        let t_burst = rb.range(1_000_000, fault_until.max(1_000_001));
+        // (20-40 packets of about a frame each, evenly spread: flush credit is capped at rate x
+        // RTT, and a frame of 127 datagrams plus its successor needs about a kilobyte of it)
+        // ... and the link is clean until 300 ms before the burst: the fault rules of the plan
+        // that begin earlier begin then
+        {
+            let t0 = t_burst - 300_000;
+            let mut last: std::collections::BTreeMap<(Option<usize>, Option<usize>), LinkRule> = Default::default();
+            for tl in plan.timeline.iter_mut() {
+                if tl.t_us < t0 {
+                    if let Op::Link { from, to, rule } = &mut tl.op {
+                        last.insert((*from, *to), rule.clone());
+                        *rule = clean_rule(rule.latency_us);
+                    }
+                }
+            }
+            for ((from, to), rule) in last {
+                plan.push(t0, 2, Op::Link { from, to, rule });
+            }
+        }
+        let n_warm = rb.range(20, 40);
+        for k in 0..n_warm {
+            let t = t_burst * k / n_warm + rb.below(t_burst / n_warm / 2 + 1);
+            plan.push(t, 0x4000_0000 + tag, Op::Send { ep: 0, to: None, ch: short_ch, mode: *rb.pick(&[MODE_RELIABLE, MODE_PERSISTENT]), len: rb.range(800, 1400) as u32, tag });
             tag += 1;
         }
         for _ in 0..rb.range(1, 3) {
